@@ -17,7 +17,7 @@ Import ListNotations.
 From BB Require Import BN Brute SpaceFacts TrapFacts PercolateFacts AttractorFacts Diagram Invariants Checks Filter
   Strict PetriNet Control Meta FilterFacts PetriNetFacts TrappistFacts DiagramStruct DiagramSem1 DiagramCache
   DiagramDepth DiagramComplete Termination ControlFacts MetaFacts Candidates StrictFacts MinExpandFacts CandidatesFacts SymbolicTest SymbolicTestFacts Signed ReductionFacts ControlFacts2 Main Blocks BlocksFacts ObsFacts OwnerFacts CandidatesTerm
-  PartialOwner BlockMath BlockComplete ASeeds ASeedsFacts LogChecks SkipRule SkipRuleFacts Names NamesFacts Perm PermFacts SCC SCCFacts SCCStruct ControlFacts3 SCCTerm FilterSym Main2 StrategyFacts ControlFacts4 PyLib PySrc PySrcFacts SkipRuleFacts2 SCCComplete SCCAttr BlockComplete2.
+  PartialOwner BlockMath BlockComplete ASeeds ASeedsFacts LogChecks SkipRule SkipRuleFacts Names NamesFacts Perm PermFacts SCC SCCFacts SCCStruct ControlFacts3 SCCTerm FilterSym Main2 StrategyFacts ControlFacts4 PyLib PySrc PySrcFacts SkipRuleFacts2 SCCComplete SCCAttr BlockComplete2 ControlFacts5.
 
 Theorem C06_override_forces : forall (N : net) (S : space) (d m : list (option bool)), trap_space N S -> length d = nvars N -> length m = nvars N -> compatible d S -> subspace (percolate_b N (merge d S)) m = true -> forced (override N d) S m.
 Proof. exact override_forces. Qed.
@@ -66,6 +66,13 @@ Proof. exact py_is_subspace_spec. Qed.
 Theorem C06_source_intersect : forall (n : nat) (x y : pdict), wf_dict n x -> wf_dict n y -> match py_intersect x y with | Some (Some r) => wf_dict n r /\ intersect (to_space n x) (to_space n y) = Some (to_space n r) | Some None => intersect (to_space n x) (to_space n y) = None | None => False end.
 Proof. exact py_intersect_spec. Qed.
 
+(* the whole call -- target-directed expansion of ANY plainly reached diagram, then succession control with either setting of skip_feedforward_successions -- reports only interventions that satisfy the property *)
+Theorem C06_control_after_any_plain_history : forall (fuel : nat) (N : net) (cfg : config) (target : list (option bool)) (d d' : sd) (all_strategy : bool) (maxd : option nat) (forbidden : list nat) (b : bool) (succ : list space) (ctl : list (list space)), 1 <= max_motifs cfg -> length target = nvars N -> PlainInv N d -> expand_to_target fuel N cfg d target None = (d', RBool true) -> In (succ, ctl, true) (succession_control_ff N d' target all_strategy maxd forbidden b) -> let spaces := chain N succ (top_space (nvars N)) in length ctl = length succ /\ (forall i : nat, i < length succ -> trap_space N (nth i spaces []) /\ trap_space N (nth (S i) spaces []) /\ subspace (nth (S i) spaces []) (nth i spaces []) = true /\ nth i ctl [] <> [] /\ (forall drv : space, In drv (nth i ctl []) -> subspace (percolate_b N (merge drv (nth i spaces []))) (nth i succ []) = true /\ forced (override N drv) (nth i spaces []) (nth i succ []))) /\ intersect (last spaces []) target <> None /\ (forall M : space, min_trap N M -> subspace M (last spaces []) = true -> subspace M target = true).
+Proof. exact control_after_plain_history_sound. Qed.
+
+Theorem C06_target_expansion_from_any_plain_diagram : forall (fuel : nat) (N : net) (cfg : config) (target : list (option bool)) (d d' : sd), 1 <= max_motifs cfg -> length target = nvars N -> PlainInv N d -> expand_to_target fuel N cfg d target None = (d', RBool true) -> PlainInv N d' /\ TargetExpanded target d'.
+Proof. exact target_expansion_TargetExpanded_from. Qed.
+
 Print Assumptions C06_override_forces.
 Print Assumptions C06_override_forces_code.
 Print Assumptions C06_find_drivers_force.
@@ -79,3 +86,5 @@ Print Assumptions C06_skip_feedforward_sound.
 Print Assumptions C06_skip_feedforward_subset.
 Print Assumptions C06_source_is_subspace.
 Print Assumptions C06_source_intersect.
+Print Assumptions C06_control_after_any_plain_history.
+Print Assumptions C06_target_expansion_from_any_plain_diagram.
